@@ -120,7 +120,7 @@ def run(spec, ctx):
                 ctx.case(repr(table) + data.hex(), any(data[k:k + 8] != b"\0" * 8 for k in range(0, len(data) - 7, 8)),
                          sample={"table": [list(t) for t in table][:3], "data_hex": data[:32].hex()} if i == 0 else None)
                 try:
-                    ilog.parse_ilog_data(memoryview(data) if rng.random() < 0.5 else data, path)
+                    ilog.parse_ilog_data(iogen.view_of(rng, data), path)
                 except Exception as e:
                     ctx.violation("C14/decoder-raised/" + type(e).__name__, "parse_ilog_data raised %r" % (e,), data=data[:400],
                                   table=[list(t) for t in table][:50])
